@@ -28,8 +28,11 @@ class PollFuture(_Future):
         super(PollFuture, self).__init__()
         self._delegate = delegate
         self._executor = executor
-        self._delegate.add_done_callback(self._delegate_resolved)
+        # Install our own cleanup callback first: if the delegate is already done,
+        # the next call registers (and may even resolve) this future before returning,
+        # and a resolved future must be deregistered by its resolving call.
         self.add_done_callback(self._clear_executor)
+        self._delegate.add_done_callback(self._delegate_resolved)
 
     def _delegate_resolved(self, delegate):
         assert delegate is self._delegate, "BUG: called with %s, expected %s" % (
